@@ -13,7 +13,7 @@ withp=$(run_demo)
 suite=$(cargo test --offline --lib 2>&1 | grep -E "^test result" | head -1)
 git checkout -q -- .
 cd /verif
-out=$(scripts/try_mutant.sh $sd/patch.diff $prop 2>&1)
+if [ "${SKIP_CHECK:-0}" = 1 ]; then out="rc=- (detection filled in by scripts/regress_parallel.sh)"; else out=$(scripts/try_mutant.sh $sd/patch.diff $prop 2>&1); fi
 sig=$(echo "$out" | grep -o "signature:.*" | head -1)
 rc=$(echo "$out" | grep -o "rc=[0-9]*" | head -1)
 python3 - "$id" "$clean" "$withp" "$suite" "$rc" "$sig" <<'PY'
